@@ -307,7 +307,9 @@ func buildC08(tier string) *core.Plan {
 
 	byteSpace := func(ext string) core.Space {
 		return core.Space{Name: fmt.Sprintf("byte-strings-len%d-%s", strLen, ext), N: nStr,
-			Desc: func(i int64) any { return map[string]any{"file": "x." + ext, "content": string(c08ByteString(i, strLen))} },
+			Desc: func(i int64) any {
+				return map[string]any{"file": "x." + ext, "content": string(c08ByteString(i, strLen))}
+			},
 			Run: func(c *core.Ctx, i int64) {
 				s := c08ByteString(i, strLen)
 				path := filepath.Join(c08Scratch(), "x."+ext)
@@ -331,7 +333,9 @@ func buildC08(tier string) *core.Plan {
 	}
 	lowers := []any{nil, map[string]any{"a": 1, "b": map[string]any{"c": 2}}, map[string]any{"a": []any{1}, "c": "$required"}, []any{1, map[string]any{"a": 1}}}
 	structural := core.Space{Name: "directive-injection", N: int64(len(inj)),
-		Desc: func(i int64) any { return map[string]any{"doc": inj[i].doc, "layered": "alone; over each of 3 lower layers; as lower layer under {a: 2}; as second document"} },
+		Desc: func(i int64) any {
+			return map[string]any{"doc": inj[i].doc, "layered": "alone; over each of 3 lower layers; as lower layer under {a: 2}; as second document"}
+		},
 		Run: func(c *core.Ctx, i int64) {
 			d := inj[i].doc
 			w := core.Canon(d)
